@@ -7071,8 +7071,8 @@ def FillUnitDatabaseWithPosc(
         f_unit_to_base,
         default_category=None,
     )
-    f_unit_to_base = MakeCustomaryToBase(0.0, 37000, 1.0, 0.0)
-    f_base_to_unit = MakeBaseToCustomary(0.0, 37000, 1.0, 0.0)
+    f_unit_to_base = MakeCustomaryToBase(0.0, 37000000, 1.0, 0.0)
+    f_base_to_unit = MakeBaseToCustomary(0.0, 37000000, 1.0, 0.0)
     db.AddUnit(
         "activity (of radioactivity)",
         "millicurie",
